@@ -296,6 +296,15 @@ var errorPathTemplates = []struct {
 	{"try {\ncallcb0(func() {\nx = [1][5]\n})\nprobe(\"after\")\n} catch e {\nprobe(\"caught\")\n}", []string{vals.Encode("caught")}, ""},
 	{"try {\nprobe(cbv(func(v) {\nthrow \"in-cbv\"\n}, 1))\n} catch e {\nprobe(\"caught\")\n}", []string{vals.Encode("caught")}, ""},
 	{"func run() {\neachcb([1, 2], func(x) {\nif x == 1 {\nthrow \"first\"\n}\nprobe(x)\n})\nreturn \"completed\"\n}\nprobe(run())", []string{}, "*"},
+	// a host function that panics is a failing call whatever it panics with - an empty text, a defined string type, nil-like values
+	{"panicwith(\"\")\nprobe(\"after\")", []string{}, "*"},
+	{"try {\npanicwith(\"\")\nprobe(\"after\")\n} catch e {\nprobe(\"caught\")\n}", []string{vals.Encode("caught")}, ""},
+	{"func f() {\ndefer probe(\"deferred\")\npanicwith(\"\")\nprobe(\"after\")\n}\ntry {\nf()\nprobe(\"after-call\")\n} catch e {\nprobe(\"caught\")\n}", []string{vals.Encode("deferred"), vals.Encode("caught")}, ""},
+	{"func f() {\ndefer panicwith(\"\")\nreturn 1\n}\ntry {\nf()\nprobe(\"after-call\")\n} catch e {\nprobe(\"caught\")\n}", []string{vals.Encode("caught")}, ""},
+	{"x = (panicwith(\"\") ?? \"dflt\")\nprobe(x)", []string{vals.Encode("dflt")}, ""},
+	{"try {\npanicwith(0)\nprobe(\"after\")\n} catch e {\nprobe(\"caught\")\n}", []string{vals.Encode("caught")}, ""},
+	{"try {\npanicwith(\"msg\")\nprobe(\"after\")\n} catch e {\nprobe(\"caught\")\n}", []string{vals.Encode("caught")}, ""},
+	{"try {\neachcb([1], func(x) {\npanicwith(\"\")\n})\nprobe(\"after\")\n} catch e {\nprobe(\"caught\")\n}", []string{vals.Encode("caught")}, ""},
 	// an error raised by the LOW bound of a slice expression / slice assignment is not lost behind the high bound
 	{"a = [1, 2, 3]\nhi = 2\nfunc low() {\nthrow \"low\"\n}\ntry {\nx = a[low():hi]\nprobe(\"after\")\n} catch e {\nprobe(\"caught\")\n}", []string{vals.Encode("caught")}, ""},
 	{"a = [1, 2, 3]\nhi = 2\ntry {\nx = a[nosuch:hi]\nprobe(\"after\")\n} catch e {\nprobe(\"caught\")\n}", []string{vals.Encode("caught")}, ""},
@@ -317,7 +326,7 @@ func streamErrors(o *Out, r *rand.Rand, n int, thorough bool) {
 			continue
 		}
 		res := runVM(stmt, -1, 3*time.Second)
-		if strings.Contains(c.src, "eachcb") || strings.Contains(c.src, "callcb0") || strings.Contains(c.src, "cbv") {
+		if strings.Contains(c.src, "eachcb") || strings.Contains(c.src, "callcb0") || strings.Contains(c.src, "cbv") || strings.Contains(c.src, "panicwith") {
 			o.Sum.Evaluations++ // host callbacks are not part of the model: implementation-side oracle only
 		} else {
 			o.Case(fmt.Sprintf("(run %d _ %s)", modelFuel, astser.Prog(stmt)), res.line, c.src, true)
